@@ -31,13 +31,17 @@ theorem getChan_mem {m : Mux} {id : Nat} {c : Chan} (h : getChan m id = some c) 
 theorem chanSend_closed (c : Chan) (ev : String) (b : Bool) : (chanSend c ev b).1.closed = c.closed := by
   unfold chanSend; split <;> rfl
 
-theorem pushMsg_ok {c c' : Chan} {x : QMsg} {o : Outcome} (hc : c.closed = false)
-    (h : pushMsg c x = some (o, c')) : o = .ok ∧ c'.closed = false := by
-  unfold pushMsg at h
-  simp [hc] at h
-  obtain ⟨_, ho, hc'⟩ := h
-  subst hc'
-  exact ⟨ho.symm, rfl⟩
+theorem pushMsg_ok {c : Chan} (x : QMsg) (hc : c.closed = false) :
+    (pushMsg c x).1 ≠ .panic ∧ (pushMsg c x).2.closed = false := by
+  unfold pushMsg
+  simp only [hc, Bool.false_eq_true, ↓reduceIte]
+  split
+  · exact ⟨by simp, hc⟩
+  · exact ⟨by simp, rfl⟩
+
+theorem pushMsg_ok' {c : Chan} {x : QMsg} {r : Outcome × Chan} (hc : c.closed = false) (h : pushMsg c x = r) :
+    r.1 ≠ .panic ∧ r.2.closed = false := by
+  subst h; exact pushMsg_ok x hc
 
 theorem tryPushMsg_ok {c : Chan} {x : QMsg} (hc : c.closed = false) :
     (tryPushMsg c x).1 = .ok ∧ (tryPushMsg c x).2.closed = false := by
@@ -108,12 +112,14 @@ theorem handleChan_total {m : Mux} {id : Nat} {c : Chan} {p : Bytes} {t : Nat} {
                   · split at hr
                     · cases hr
                     · cases hr; exact hcl
+                obtain ⟨ho, _⟩ := pushMsg_ok (QMsg.failure ‹Nat›) hc1
+                generalize pushMsg c1 (QMsg.failure _) = r at h ho
+                obtain ⟨o1, c2⟩ := r
+                simp only at h ho
                 split at h
+                · cases h; exact ⟨by simp, hl⟩
                 · cases h
-                · rename_i o1 c2 hp
-                  obtain ⟨ho, _⟩ := pushMsg_ok hc1 hp
-                  cases h
-                  refine ⟨by simp [ho], ?_⟩
+                  refine ⟨ho, ?_⟩
                   intro c' hc'
                   exact listed_setChan hl _ none (by simp) c' hc'
             · -- openConfirm
@@ -132,13 +138,14 @@ theorem handleChan_total {m : Mux} {id : Nat} {c : Chan} {p : Bytes} {t : Nat} {
                   exact ⟨by simp, listed_setChan hl id _ (by intro c' hc'; cases hc'; exact hc1)⟩
                 · split at h
                   · cases h
-                  · dsimp only at h
-                    split at h
-                    · cases h
-                    · rename_i o1 c2 hp
-                      obtain ⟨ho, hc2⟩ := pushMsg_ok (by exact hc1) hp
-                      cases h
-                      exact ⟨by simp [ho], listed_setChan hl id _ (by intro c' hc'; cases hc'; exact hc2)⟩
+                  · rename_i w hw
+                    dsimp only at h
+                    generalize hr : pushMsg _ QMsg.confirm = r at h
+                    obtain ⟨ho, hc2⟩ := pushMsg_ok' (by exact hc1) hr
+                    obtain ⟨o1, c2⟩ := r
+                    simp only at h ho hc2
+                    cases h
+                    exact ⟨ho, listed_setChan hl id _ (by intro c' hc'; cases hc'; exact hc2)⟩
             · -- windowAdjust
               split at h
               · cases h; exact ⟨by simp, hl⟩
@@ -172,12 +179,12 @@ theorem handleChan_total {m : Mux} {id : Nat} {c : Chan} {p : Bytes} {t : Nat} {
                 cases h
                 exact ⟨by simp [ho], listed_setChan hl id _ (by intro c' hc'; cases hc'; exact hc2)⟩
             · -- default arm
-              split at h
-              · cases h
-              · rename_i o1 c2 hp
-                obtain ⟨ho, hc2⟩ := pushMsg_ok hcl hp
-                cases h
-                exact ⟨by simp [ho], listed_setChan hl id _ (by intro c' hc'; cases hc'; exact hc2)⟩
+              obtain ⟨ho, hc2⟩ := pushMsg_ok QMsg.other hcl
+              generalize pushMsg c QMsg.other = r at h ho hc2
+              obtain ⟨o1, c2⟩ := r
+              simp only at h ho hc2
+              cases h
+              exact ⟨ho, listed_setChan hl id _ (by intro c' hc'; cases hc'; exact hc2)⟩
 
 
 theorem listed_addChan {m : Mux} (h : Listed m) (c : Chan) (hc : c.closed = false) : Listed (addChan m c).1 := by
